@@ -291,6 +291,16 @@ fn count_ops(p: &Program, ex: &ExecTrace, out: &mut RunOut) {
                 Op::TlsWith(_) => format!("tls_{}", e.val),
                 Op::IsCompleted(_) => format!("is_completed_{}", e.val),
                 Op::Park => "park_returned".into(),
+                Op::SemAcquire(..) => format!("sem_acquire_{}", e.val.split(':').next().unwrap_or("")),
+                Op::SemTry(..) => format!("sem_try_{}", e.val.split(':').next().unwrap_or("")),
+                Op::SemCancel(..) => {
+                    if e.val.starts_with("acquired") {
+                        "sem_cancel_acquired".into()
+                    } else {
+                        format!("sem_{}", e.val.split(':').next().unwrap_or(""))
+                    }
+                }
+                Op::SemClose(_) => "sem_close".into(),
                 _ => continue,
             };
             out.count(&name, 1);
